@@ -36,7 +36,7 @@ def main():
         meta["ran"].append("go build ./... -> %s" % ("ok" if rc == 0 else "FAILED"))
         if rc != 0:
             print("BUILD FAILS", out[-800:]); meta["status"] = "does not build"; return finish(meta, src, sid, False)
-        rc, out = sh("go test -vet=off -count=1 ./...", wt)
+        rc, out = sh("unshare -rn sh -c 'ip link set lo up; go test -vet=off -count=1 ./...'", wt)   # one example test binds a fixed port
         meta["ran"].append("go test -vet=off -count=1 ./... (patched) -> %s" % ("all ok" if rc == 0 else "FAILED"))
         if rc != 0:
             print("EXISTING TESTS FAIL WITH PATCH", out[-1500:]); meta["status"] = "existing tests fail"; return finish(meta, src, sid, False)
